@@ -9,6 +9,7 @@ mod c16;
 mod c18;
 mod delays;
 mod inject;
+mod shadow;
 
 use pv::{run::main_entry, Ctx, Report, Rng, Spec, Tier};
 
@@ -89,14 +90,17 @@ fn spec_for(prop: &str, _tier: Tier) -> Option<Spec> {
 		"C12" => Spec::new(
 			"C12",
 			"exploration",
-			"Threaded half: a case is one 1.5-6 s history with LIVE background workers and two committers writing fresh keys of many size classes (value tables are created and grown all the time), sync_wal = sync_data = true. The harness binary interposes write / read / fsync / fdatasync / msync / ftruncate of the database files (thread-safe trace mode, nothing is failed) and evaluates R1 (a log file is read for enactment only while none of its appended bytes is unsynced) and R4 (when a thread truncates a log file, every table / index / ref-count file that was mapped when that thread began its flush and is still mapped has been msynced by it since its previous log truncation) - through the shutdown as well. In two of three histories every set_len of a table file (made inside TableFile::grow under the table's exclusive map lock) is held for 0.3-4 ms, so the cleanup stage meets tables whose lock the commit stage holds. evaluations = log reads judged by R1 + table files required by R4; distinct_nontrivial = distinct (always_flush, grow held, R4 evaluated) classes.",
+			"Threaded half: a case is one 1.5-6 s history with LIVE background workers and two committers writing fresh keys of many size classes (value tables are created and grown all the time), sync_wal = sync_data = true. The harness binary interposes write / read / fsync / fdatasync / msync / ftruncate of the database files (thread-safe trace mode, nothing is failed) and evaluates R1 (a log file is read for enactment only while none of its appended bytes is unsynced) and R4 (when a thread truncates a log file, every table / index / ref-count file that was mapped when that thread began its flush and is still mapped has been msynced by it since its previous log truncation) - through the shutdown as well. In two of three histories every set_len of a table file (made inside TableFile::grow under the table's exclusive map lock) is held for 0.3-4 ms, so the cleanup stage meets tables whose lock the commit stage holds. Every other history additionally keeps a DURABLE SHADOW of the directory from the same intercepted calls (fsync / fdatasync: whole file; msync: the range; ftruncate(log, 0): old-or-empty until its fsync; unlink: gone) while one committer issues the deterministic sequence T1, T2, ..., and cuts up to 24 power-loss images per history (after log truncations, after log syncs, at random moments, during the shutdown): durable content + none / half / all of the differing 4 KiB pages + a prefix of the unsynced log tail; each image is opened in a child process and must hold S_m for some m <= started. evaluations = log reads judged by R1 + table files required by R4 + images judged; distinct_nontrivial = distinct (always_flush, grow held, R4 evaluated) classes.",
 		)
 		.require("r1_checks", 2000)
 		.require("r4_checks", 100)
 		.require("r4_files_required", 1000)
 		.require("grow_calls_held", 200)
-		.require("threaded_histories", 20)
-		.budget(30, 300),
+		.require("threaded_histories", 10)
+		.require("image_histories", 10)
+		.require("power_loss_images_with_live_workers", 100)
+		.require("shadow_log_truncations", 50)
+		.budget(40, 300),
 		"C16" => {
 			let mut s = Spec::new(
 				"C16",
@@ -176,6 +180,9 @@ fn main() {
 	}
 	if a.len() > 1 && a[1] == "--c02-child" {
 		c02::child_main(&a[2..]);
+	}
+	if a.len() > 1 && a[1] == "--c12-image" {
+		c12::image_child(&a[2..]);
 	}
 	main_entry(spec_for, shard)
 }
